@@ -45,11 +45,31 @@ struct WriteRec {
     done: AtomicBool,
 }
 
-#[derive(Default)]
 struct Shared {
     log: Mutex<Vec<Arc<WriteRec>>>,
     scanned: AtomicUsize,
     seen: Mutex<HashSet<(u64, u64)>>,
+    /// `iogate`: device writes issued while the gate is shut wait until `ioopen`
+    gate: tokio::sync::watch::Sender<bool>,
+    /// `rgate` / `ropen`: the same for device reads
+    rgate: tokio::sync::watch::Sender<bool>,
+    /// `lhold` / `lunhold`: disk loads wait while held
+    lholder: foyer_storage::test_utils::Holder,
+    /// `bget`: lookups running in the background, joined by `join`
+    bg: Mutex<Vec<(u64, tokio::task::JoinHandle<String>)>>,
+}
+impl Default for Shared {
+    fn default() -> Self {
+        Self {
+            log: Default::default(),
+            scanned: Default::default(),
+            seen: Default::default(),
+            gate: tokio::sync::watch::channel(false).0,
+            rgate: tokio::sync::watch::channel(false).0,
+            lholder: Default::default(),
+            bg: Default::default(),
+        }
+    }
 }
 
 struct LogIoEngine {
@@ -63,7 +83,31 @@ impl Debug for LogIoEngine {
 }
 impl IoEngine for LogIoEngine {
     fn read(&self, buf: Box<dyn IoBufMut>, partition: &dyn Partition, offset: u64) -> IoHandle {
-        self.inner.read(buf, partition, offset)
+        if !*self.sh.rgate.borrow() {
+            return self.inner.read(buf, partition, offset);
+        }
+        // read gate shut: the read reaches the device only after `ropen`
+        let (raw, base) = partition.translate(0);
+        let owned = OwnedPartition {
+            id: partition.id(),
+            size: partition.size(),
+            raw: raw.0,
+            base,
+            statistics: partition.statistics().clone(),
+        };
+        let mut gate = self.sh.rgate.subscribe();
+        let inner = self.inner.clone();
+        let fut = async move {
+            while *gate.borrow_and_update() {
+                if gate.changed().await.is_err() {
+                    break;
+                }
+            }
+            let r: (Box<dyn IoB>, foyer::Result<()>) = inner.read(buf, &owned, offset).await;
+            r
+        }
+        .boxed();
+        IoHandle::from(fut)
     }
     fn write(&self, buf: Box<dyn IoBuf>, partition: &dyn Partition, offset: u64) -> IoHandle {
         let rec = Arc::new(WriteRec {
@@ -72,15 +116,69 @@ impl IoEngine for LogIoEngine {
             data: buf.to_vec(),
             done: AtomicBool::new(false),
         });
-        self.sh.log.lock().push(rec.clone());
-        let h = self.inner.write(buf, partition, offset);
+        if !*self.sh.gate.borrow() {
+            self.sh.log.lock().push(rec.clone());
+            let h = self.inner.write(buf, partition, offset);
+            let fut = async move {
+                let r: (Box<dyn IoB>, foyer::Result<()>) = h.await;
+                rec.done.store(true, Ordering::SeqCst);
+                r
+            }
+            .boxed();
+            return IoHandle::from(fut);
+        }
+        // gate shut: the write reaches the device (and the write log) only after `ioopen`
+        let (raw, base) = partition.translate(0);
+        let owned = OwnedPartition {
+            id: partition.id(),
+            size: partition.size(),
+            raw: raw.0,
+            base,
+            statistics: partition.statistics().clone(),
+        };
+        let mut gate = self.sh.gate.subscribe();
+        let sh = self.sh.clone();
+        let inner = self.inner.clone();
         let fut = async move {
-            let r: (Box<dyn IoB>, foyer::Result<()>) = h.await;
+            while *gate.borrow_and_update() {
+                if gate.changed().await.is_err() {
+                    break;
+                }
+            }
+            sh.log.lock().push(rec.clone());
+            let r: (Box<dyn IoB>, foyer::Result<()>) = inner.write(buf, &owned, offset).await;
             rec.done.store(true, Ordering::SeqCst);
             r
         }
         .boxed();
         IoHandle::from(fut)
+    }
+}
+
+struct OwnedPartition {
+    id: u32,
+    size: usize,
+    raw: std::os::fd::RawFd,
+    base: u64,
+    statistics: Arc<foyer_storage::Statistics>,
+}
+impl Debug for OwnedPartition {
+    fn fmt(&self, f: &mut std::fmt::Formatter<'_>) -> std::fmt::Result {
+        write!(f, "OwnedPartition({})", self.id)
+    }
+}
+impl Partition for OwnedPartition {
+    fn id(&self) -> u32 {
+        self.id
+    }
+    fn size(&self) -> usize {
+        self.size
+    }
+    fn translate(&self, address: u64) -> (foyer_storage::RawFile, u64) {
+        (foyer_storage::RawFile(self.raw), self.base + address)
+    }
+    fn statistics(&self) -> &Arc<foyer_storage::Statistics> {
+        &self.statistics
     }
 }
 
@@ -197,7 +295,8 @@ async fn open(dir: &Path, cfg: &Cfg, sh: Arc<Shared>, switch: Switch) -> foyer::
         .with_submit_queue_size_threshold(geti_d(kv, "submit", 16 * 1024 * 1024) as usize)
         .with_recover_concurrency(2)
         .with_tombstone_log(tomb)
-        .with_flush_switch(switch);
+        .with_flush_switch(switch)
+        .with_load_holder(sh.lholder.clone());
     match gets_d(kv, "admit", "all") {
         "all" => {}
         "none" => eng = eng.with_admission_filter(StorageFilter::new().with_condition(Biased::new([]))),
@@ -444,6 +543,57 @@ fn run_script(script: &[&str], n: usize) {
                             "ok".into()
                         }
                         "sload" => sload(hh.as_ref().unwrap(), geti(&kv, "k")).await,
+                        "lhold" => {
+                            sh.lholder.hold();
+                            "ok".into()
+                        }
+                        "lunhold" => {
+                            sh.lholder.unhold();
+                            "ok".into()
+                        }
+                        "iogate" => {
+                            let _ = sh.gate.send_replace(true);
+                            "ok".into()
+                        }
+                        "rgate" => {
+                            let _ = sh.rgate.send_replace(true);
+                            "ok".into()
+                        }
+                        "ropen" => {
+                            let _ = sh.rgate.send_replace(false);
+                            "ok".into()
+                        }
+                        "ioopen" => {
+                            let _ = sh.gate.send_replace(false);
+                            "ok".into()
+                        }
+                        "bget" => {
+                            // a lookup that runs in the background; `join` reports its result
+                            let k = geti(&kv, "k");
+                            let hy = hh.as_ref().unwrap().clone();
+                            let t = tokio::spawn(async move {
+                                match hy.get(&k).await {
+                                    Ok(Some(e)) => format!("hit:{}:{:?}", show(e.value()), e.source()),
+                                    Ok(None) => "miss".into(),
+                                    Err(e) => format!("err:{:?}", e.kind()),
+                                }
+                            });
+                            sh.bg.lock().push((k, t));
+                            tokio::time::sleep(Duration::from_millis(geti_d(&kv, "ms", 20))).await;
+                            "ok".into()
+                        }
+                        "join" => {
+                            let ts: Vec<_> = sh.bg.lock().drain(..).collect();
+                            let mut out = vec![];
+                            for (k, t) in ts {
+                                out.push(format!("{k}={}", t.await.unwrap_or_else(|_| "PANIC".into())));
+                            }
+                            format!("bg[{}]", out.join(","))
+                        }
+                        "sleep" => {
+                            tokio::time::sleep(Duration::from_millis(geti_d(&kv, "ms", 20))).await;
+                            "ok".into()
+                        }
                         "probe" => {
                             let hy = hh.as_ref().unwrap();
                             let mut out = vec![];
